@@ -7,8 +7,10 @@
     lowest metric on ties; default as last resort; None if nothing matches; an exact tie accepts either route).
 (2) Explicit-state BFS (replay from history) over small real networks built through the Python API: a switched LAN,
     chains of 1-3 routers (static routes with decoy routes / default routes, /30 and /24 inter-router links), a chain
-    with a firewall, two routers sharing a switched LAN with a host (two port orders), a wireless router pair, and a
-    router whose static route points at a host.  Events: ping(a->b) for all ordered host pairs, pings to router
+    with a firewall, two routers sharing a switched LAN with a host (two port orders), a wireless router pair, a
+    router whose static route points at a host, two firewalls in one broadcast domain (back to back / via a switch with a
+    host), a chain whose second router has no route back (replies cannot return) and two routers joined by two parallel
+    /30 links with asymmetric routes.  Events: ping(a->b) for all ordered host pairs, pings to router
     addresses / unused addresses / addresses outside every subnet (the two-router default-route loop), a DNS lookup
     against a dns-server, NIC / router-port / switch-port toggles, node power toggles (durations 0), tick.  Cold ARP
     caches at the start; warm states arise by chaining.
@@ -21,7 +23,9 @@ request and reply); (b) class-level monitor on SoftwareManager.receive_payload_f
 destination address is not a broadcast address is handed to software only on the node owning it; (c) per Frame object:
 TTL lower at every receiving interface and at every routing hop, no frame with TTL < 1 handed on; (d) every event
 returns: more than MAX_NESTING frames in flight inside one another (a frame can cross at most 63 interfaces), more than
-MAX_TX transmissions in one event, or a recursion error are termination violations.
+MAX_TX transmissions in one event, or a recursion error are termination violations; (e) per hop: every frame a router
+forwards leaves through the interface, and to the MAC of the next hop, that connected networks / the reference LPM give -
+independent of what the router's ARP cache has learnt from transit traffic.
 """
 from __future__ import annotations
 
@@ -1234,6 +1238,9 @@ ASSUMPTIONS = [
     "no request exists for either); toggles and power go through Simulation.apply_request; shut-down/start-up durations are 0",
     "a payload counts as unicast when its destination address is neither 255.255.255.255 nor the directed broadcast of an interface "
     "of the receiving node (ARP requests carry the asked-for address and are judged like any other packet)",
+    "per-hop oracle: a router's egress interface and the destination MAC of a forwarded frame are those of the next hop given by "
+    "connected networks, then the reference LPM (the next hop of a connected network is the destination itself); ARP frames are "
+    "not judged by it",
     "termination: an event that has more than %d frames in flight inside one another or more than %d transmissions is cut by the "
     "monitor and reported (a frame can cross at most 63 interfaces); the recursion limit of the checking process is raised to 6000 "
     "so that the cut is deterministic" % (MAX_NESTING, MAX_TX),
